@@ -24,6 +24,7 @@ class Program:
             for k, v in d["traits"].items():
                 self.traits[k] = v
         self.inlined = []
+        self.removed_helpers = []
         if inline and self.fns:
             from .inline import inline_new_helpers
             self.inlined = inline_new_helpers(self)
